@@ -213,13 +213,23 @@ def classify(case, clause, tid, mlines):
                 px = tr.parent(x)
                 if any(below(h, x) or (px is not None and tr.parent(h) == px) for h in tr.hooks if h in st):
                     return "101:hook_act"
+                def back_cancel(site):
+                    # write sites of the back / cancel actions (task.rs update Back / Cancel arms, context.rs back_task /
+                    # undo_task / redo_task): one family, whatever the kind of the task that is left open
+                    return site[1:].isdigit() and 33 <= int(site[1:]) <= 38
                 if kids:
                     # an errored child under a task that is still open is what keeps it open (Act::review /
                     # Step::review stop at the first errored child); otherwise the child that moved last
                     errs = [k for k in kids if st[k] == 'error']
                     y = max(errs or kids, key=lambda k: last.get(k, (-1,))[0])
-                    return f"101:{tr.ti[x]['kind']}:{st[x]}:child_{st[y]}{last.get(y, (0, '', '@?'))[2]}"
-                return f"101:{tr.ti[x]['kind']}:{st[x]}:self{last.get(x, (0, '', '@?'))[2]}"
+                    site = last.get(y, (0, '', '@?'))[2]
+                    if not errs and back_cancel(site):
+                        return "101:back_cancel@33-38"
+                    return f"101:{tr.ti[x]['kind']}:{st[x]}:child_{st[y]}{site}"
+                site = last.get(x, (0, '', '@?'))[2]
+                if back_cancel(site):
+                    return "101:back_cancel@33-38"
+                return f"101:{tr.ti[x]['kind']}:{st[x]}:self{site}"
         return "101:?"
     return str(clause)
 
@@ -252,6 +262,7 @@ def run(prop, tier, seed):
             res = dict(res, harness_errors=list(res['harness_errors']) + list(res2['harness_errors']))
         res = dict(res, ncases=res['ncases'] + res2['ncases'])
     violations = []
+    broken = []
     nontrivial = 0
     for cid, c in cases.items():
         if any(l.startswith('A ok') for l in i.get(cid, [])):
@@ -274,7 +285,6 @@ def run(prop, tier, seed):
                                        'case': {'kind': 'engine', 'case': cases[cid], 'clause': 1101, 'task': 0}})
                     break
         nontrivial = len([cid for cid in cases if sum(1 for l in i.get(cid, []) if l.startswith('T ')) > 8])
-    broken = []
     if res['harness_errors']:
         broken.append(('harness', "; ".join(res['harness_errors'])[:500]))
     for d in dis[:5]:
@@ -288,8 +298,36 @@ def run(prop, tier, seed):
         disagreements.append({'class': f"diff:{mk}/{ik}",
                               'detail': f"case {d['case']['id']}: the reference interpretation continues with `{d['model']}`, the implementation with `{d['impl']}` (projected line {d['at']}, line kinds {sorted(kinds)})",
                               'case': {'kind': 'engine', 'case': d['case'], 'clause': 0, 'task': 0}})
+    limit_stats = None
     if prop == 'C19':
         nontrivial = len([cid for cid in cases if any(l.startswith('F ') for l in i.get(cid, []))])
+        ldis, limit_stats = limit_check(tier, seed, os.path.join(res['dir'], 'limit'))
+        violations += ldis
+        # a reload between two operations changes no firing: same histories with the process dropped from the cache and
+        # loaded from the store before every operation (compared where the reload loses no generated node, see C12)
+        out, errs = engine.variant(res, 'evict', ('extra', 'evict'))
+        if errs:
+            broken.append(('harness', "evict: " + "; ".join(errs)[:400]))
+        ev = engine.split_cases(out)
+        same_f = 0
+        for cid, c in cases.items():
+            if cid.startswith('h'):
+                continue
+            shape = lambda ls: [re.sub(r' \d{4,}$', '', l) for l in ls if l.startswith('N ')]
+            if shape(i.get(cid, [])) != shape(ev.get(cid, [])):
+                continue
+            fa = [l for l in i.get(cid, []) if l.startswith('F ')]
+            fb = [l for l in ev.get(cid, []) if l.startswith('F ')]
+            if fa == fb:
+                same_f += 1
+            else:
+                k = 0
+                while k < min(len(fa), len(fb)) and fa[k] == fb[k]:
+                    k += 1
+                violations.append({'class': '19:reload_changes_firing',
+                                   'detail': f"case {cid}: with a reload before every operation the firings differ: uninterrupted `{fa[k] if k < len(fa) else 'none'}`, reloaded `{fb[k] if k < len(fb) else 'none'}` (F tid rule now start limit)",
+                                   'case': {'kind': 'engine-variant', 'case': c, 'variant': 'evict', 'flags': ['extra', 'evict'], 'at': k, 'expected': fa[k] if k < len(fa) else 'END', 'observed': fb[k] if k < len(fb) else 'END'}})
+        limit_stats = dict(limit_stats, reload_same_firings=same_f)
     if prop in NONTRIVIAL:
         nontrivial = len([cid for cid in cases if NONTRIVIAL[prop][0](i.get(cid, []))])
     cov = {'evaluations': res['ncases'], 'distinct_nontrivial': nontrivial,
@@ -299,6 +337,8 @@ def run(prop, tier, seed):
            'samples': [json.loads(open(res['cases']).readline())]}
     if held_stats:
         cov['held_scheduler_corpus'] = held_stats
+    if limit_stats:
+        cov['timeout_limit_strings'] = limit_stats
     return {'cov': cov, 'violations': violations, 'broken': broken, 'disagreements': disagreements, 'reference': prop in REFERENCE,
             'assumptions': ["one engine operation (scheduler step, client action, tick) is atomic; overlap of exec and update on different threads is not modelled",
                             "deterministic tier: current_thread runtime, FIFO queue below 100 pending signals",
@@ -324,6 +364,46 @@ def replay(prop, case, workdir):
     hit = [x for x in v if lo <= x[0] < hi]
     print("REPRODUCED" if hit or a != b else "NOT-REPRODUCED")
     return 1 if hit or a != b else 0
+
+
+def limit_check(tier, seed, workdir):
+    """timeout limit strings through the engine's parser / conversion and through the extracted Limit model"""
+    from common import Rng, ML, sh
+    r = Rng(seed * 31 + 19)
+    fixed = ["", "s", "m", "5", "5x", "5 s", " 5s", "5s ", "5.0s", "1e3s", "--5s", "+-5s", "+s", "-s", "5S", "5ms", "ss", "5s\n", "1_000s", "0x10s", "00s", "-0d", "+0h",
+             "9223372036854775807s", "9223372036854775808s", "-9223372036854775808s", "-9223372036854775809s", "9223372036854775807m", "-9223372036854775808d",
+             "153722867280912930m", "153722867280912931m", "2562047788015215h", "2562047788015216h", "106751991167300d", "106751991167301d", "12h", "7d", "90m", "3s"]
+    strs = list(fixed)
+    for _ in range(200 if tier == 'quick' else 3000):
+        x = r.below(100)
+        if x < 55:
+            v = r.pick([r.below(10), r.below(100000), 2 ** (10 + r.below(53)) + r.below(1000), 2 ** 63 - 1 - r.below(3), 2 ** 63 + r.below(3)])
+            s = r.pick(['', '', '+', '-']) + ('0' * r.below(3)) + str(v) + r.pick('smhd')
+        elif x < 80:
+            s = "".join(r.pick(list("0123456789+-smhd x.")) for _ in range(1 + r.below(8)))
+        else:
+            s = str(r.below(1000)) + r.pick(['', 'S', 'ms', 'sec', 'w', 'y', ' s', 's s'])
+        strs.append(s)
+    os.makedirs(workdir, exist_ok=True)
+    cp = os.path.join(workdir, 'limit.jsonl')
+    open(cp, 'w').write("".join(json.dumps({'id': f"l{k}", 'kind': 'limit', 's': s}, ensure_ascii=False) + "\n" for k, s in enumerate(strs)))
+    op = os.path.join(workdir, 'limit.impl')
+    errs = engine.run_harness(cp, op, os.path.join(workdir, 'lw'), (), shards=1, mode='model')
+    if errs:
+        raise RuntimeError('harness model (limit) failed: ' + "; ".join(errs)[:400])
+    rc, out, _ = sh(f"{os.path.join(ML, 'driver_model')} limit {cp}", timeout=600)
+    if rc != 0:
+        raise RuntimeError('driver_model limit failed: ' + out[-300:])
+    mo = {l.split(': ', 1)[0][5:]: l.split(': ', 1)[1] for l in out.splitlines() if l.startswith('case ')}
+    im = engine.split_cases(op)
+    dis, acc = [], 0
+    for k, s in enumerate(strs):
+        a, b = mo.get(f"l{k}"), (im.get(f"l{k}") or ['?'])[0]
+        acc += int(b != 'L err')
+        if a != b:
+            dis.append({'class': '19:limit', 'detail': f"timeout limit {s!r}: the model reads `{a}`, the engine `{b}` (value unit seconds)",
+                        'case': {'kind': 'limit', 'case': {'id': f"l{k}", 'kind': 'limit', 's': s}}})
+    return dis, {'strings': len(strs), 'accepted': acc}
 
 
 def anonymous_side(res, n):
